@@ -646,6 +646,19 @@ def kore_trace_chunk(args):
                 if got != want:
                     out['viol'].append(({'kind': 'trace_claims_wrong', 'recorded': mode}, desc,
                                         f'Kore trace {desc["events"]} ({mode}): the claims are not the converted instantiated rewrites in order'))
+                elif mode == 'truthful':
+                    # checkable: the k-th proof expression, run AFTER the whole trace has been converted (as serialisation does),
+                    # proves the k-th claim -- not what a later application of the same rule left behind
+                    from proof_generation.basic_interpreter import BasicInterpreter, ExecutionPhase
+                    out['kore_proofs_run'] = out.get('kore_proofs_run', 0) + len(want)
+                    try:
+                        thunks = list(m.get_proof_expressions())
+                        concl = [bridge.expand(t(BasicInterpreter(ExecutionPhase.Proof)).conclusion) for t in thunks]
+                    except Exception as ex:  # noqa: BLE001
+                        concl = ('raised', type(ex).__name__)
+                    if concl != want:
+                        out['viol'].append(({'kind': 'trace_proofs_wrong', 'raised': isinstance(concl, tuple)}, desc,
+                                            f'Kore trace {desc["events"]}: running the proof expressions gives {concl if isinstance(concl, tuple) else "other conclusions than the claims, position by position"}'))
             else:
                 out['kore_refused'] += 1
     return out
